@@ -117,6 +117,86 @@ def cases(draw, specials):
     return {'history': hist, 'pretrain': pre, 'passwords': pws}
 
 
+# ---------------------------------------------------------------- the same through run_trainer (three passes, both list spellings)
+_TDIR = None
+
+
+def prop_trained(case, rec):
+    """The whole trainer on a generated list, written expanded or in --prefixcount spelling: pass 1 has to train the multi-word
+    detector with every OCCURRENCE, pass 2 has to segment every occurrence soundly against those counts."""
+    global _TDIR
+    import os
+    if _TDIR is None or not os.path.isdir(_TDIR):
+        _TDIR = core.scratch_dir('c05t')
+    entries = [[p, c] for p, c in case['entries'] if check_valid(p)]
+    if not entries:
+        rec.skip('no_valid_password')
+        return
+    path = os.path.join(_TDIR, 'train.txt')
+    prefix = case['spelling'] != 'plain'
+    if prefix:
+        trainer.write_counted_file(path, entries, 'utf-8', pad={'prefix': 0, 'prefix_padded': 7}[case['spelling']])
+    else:
+        trainer.write_training_file(path, [p for p, c in entries for _ in range(c)], 'utf-8')
+    r = guard(case, trainer.train, path, os.path.join(_TDIR, 'R'), encoding='utf-8', prefixcount=prefix, coverage=case['coverage'])
+    if not r.ok:
+        if r.error is not None and not isinstance(r.error, ZeroDivisionError):
+            raise Violation('crash:' + type(r.error).__name__, f'run_trainer raised {r.error!r}', case)
+        rec.skip('trainer_did_not_complete')
+        return
+    expanded = [p for p, c in entries for _ in range(c)]
+    model = segoracle.MWModel()
+    for p in expanded:
+        model.train(p)
+    got = [pw for pw, _ in r.sections]
+    if got != expanded:
+        k = next((i for i, (a, b) in enumerate(zip(got, expanded)) if a != b), min(len(got), len(expanded)))
+        raise Violation('pass2_sequence', f'the second pass parsed {len(got)} passwords, the list holds {len(expanded)} occurrences; first difference at #{k}: '
+                        f'{got[k:k + 2]} vs {expanded[k:k + 2]} (spelling {case["spelling"]})', case)
+    seen = set()
+    for pw, sections in r.sections:
+        if pw in seen:
+            continue
+        seen.add(pw)
+        res = segoracle.check_sections(pw, [tuple(x) for x in sections], model)
+        labels = [l for _, l in sections]
+        multi = any(labels[i][0] == 'A' and labels[i + 1][0] == 'A' for i in range(len(labels) - 1))
+        rec.case({'password': pw, 'sections': sections, 'spelling': case['spelling']}, len(labels) >= 3 or multi,
+                 ['trained_' + case['spelling']] + (['trained_multiword_split'] if multi else []), key=[case['entries'], case['spelling'], pw])
+        if res:
+            raise Violation(res[0], f'run_trainer ({case["spelling"]} list): password {pw!r} -> {sections}: {res[1]}', dict(case))
+
+
+@st.composite
+def trained_cases(draw):
+    n = draw(st.integers(1, 8))
+    entries = []
+    for _ in range(n):
+        entries.append([draw(pwgen.password(max_frags=3)), draw(st.sampled_from([1, 1, 2, 4, 5, 6, 9, 12]))])
+    ws = draw(st.lists(st.sampled_from(pwgen.WORDS[:9]), min_size=2, max_size=3))
+    # words seen on several lines / with large counts, compounds of them with small and large counts
+    for w in set(ws):
+        entries.append([w + draw(st.sampled_from(['', '1', '!'])), draw(st.sampled_from([1, 3, 5, 7]))])
+        entries.append([w, draw(st.sampled_from([1, 4, 5, 9]))])
+        if draw(st.booleans()):
+            # the word on many LINES (each once): lines and occurrences must not be confused
+            for extra in draw(st.lists(st.sampled_from(['1', '2', '!', '12', '#', '99', '?', '0']), min_size=4, max_size=6, unique=True)):
+                entries.append([w + extra, 1])
+    entries.append([''.join(ws) + draw(st.sampled_from(['', '7'])), draw(st.sampled_from([1, 4, 5, 9]))])
+    entries.append([''.join(ws[1:]) if len(ws) > 2 else ws[0] + ws[0], draw(st.sampled_from([1, 5, 6]))])
+    seen, out = set(), []
+    for p, c in entries:
+        if p not in seen and len(p) <= 30:
+            seen.add(p)
+            out.append([p, c])
+    return {'entries': out, 'spelling': draw(st.sampled_from(['plain', 'prefix', 'prefix', 'prefix_padded'])), 'coverage': draw(st.sampled_from([0.6, 1]))}
+
+
+def run_trained(rec, seed, shard, nshards, tier):
+    n = {'quick': 40, 'thorough': 800}[tier]
+    core.hyp_run(rec, prop_trained, trained_cases(), n, seed)
+
+
 SPECIALS = ('U0130', 'case_odd', 'U2029', 'nbsp_etc')
 
 
@@ -234,4 +314,5 @@ PARTS = [
     Part('structured', run_structured, replay_ops, {'quick': 8, 'thorough': 16}),
     Part('text', run_text, replay_ops, {'quick': 4, 'thorough': 16}),
     Part('detector_histories', run_machine, replay_ops, {'quick': 4, 'thorough': 16}),
+    Part('through_run_trainer', run_trained, prop_trained, {'quick': 4, 'thorough': 16}),
 ]
